@@ -12,6 +12,7 @@ import (
 	"runtime/debug"
 	"sort"
 	"sync"
+	"sync/atomic"
 	"time"
 
 	"github.com/godaddy/asherah/go/appencryption"
@@ -653,16 +654,29 @@ func (r *runner) closeProc(p *proc) {
 
 // settle waits for asynchronous releases (session-cache removal goroutines) and returns the live-secret count.
 func (r *runner) settle(p *proc) int {
-	deadline := time.Now().Add(20 * time.Second)
+	// generous, so that a loaded machine never turns a slow teardown into a "leak"; once three waits of this driver process ran
+	// into the deadline the leak is established and the remaining cases wait a second only (a real leak must not turn the whole
+	// check into a timeout)
+	wait := 20 * time.Second
+	if settleExpired.Load() >= 3 {
+		wait = time.Second
+	}
+	deadline := time.Now().Add(wait)
 	for {
 		n := len(p.sf.Live())
 		// only cached sessions are torn down asynchronously (go Remove()); everything else is synchronous
-		if n == 0 || !p.cfg.Sess || time.Now().After(deadline) {
+		if n == 0 || !p.cfg.Sess {
+			return n
+		}
+		if time.Now().After(deadline) {
+			settleExpired.Add(1)
 			return n
 		}
 		time.Sleep(200 * time.Microsecond)
 	}
 }
+
+var settleExpired atomic.Int64
 
 // ---------------------------------------------------------------------------------------------- batch entry points
 
